@@ -25,7 +25,14 @@ CONSTANTS
   Bug_GetLoadsMemAfterUnlock,  \* DB::get loads the memtable pointer after releasing the mutex
   Bug_PublishEarly,            \* sequence published before the memtable insert
   Bug_NoNotify,                \* finishing leader / worker does not wake waiters
-  Bug_SnapshotUnlocked         \* snapshot sequence read without the mutex, mid-group allowed
+  Bug_SnapshotUnlocked,        \* snapshot sequence read without the mutex, mid-group allowed
+  MaxFaults,   \* how many WAL appends may fail (0 = no I/O failures)
+  AnyPrefix,   \* TRUE: a leader takes ANY non-empty prefix of the queue as its group (size limit,
+               \* synchronous-writer rule, forced-compaction writers cut groups anywhere);
+               \* FALSE: everybody queued
+  Bug_FollowersToldOk,         \* followers of a failed group commit are told Ok
+  Bug_RejectedFollowerDone,    \* the first writer NOT taken into the group is marked done with it
+  Bug_FailedRoomStaysQueued    \* a write refused by make_room_for_write returns without leaving the queue
 
 BG == "bg"
 Procs == Writers \cup Readers \cup {BG}
@@ -45,16 +52,23 @@ VARIABLES
   bgSched, chan,
   grp,       \* leader -> the group it is committing (sequence of writers)
   rd,        \* reader locals
-  nextMem
+  nextMem,
+  res,       \* writer -> "none" | "ok" | "err": what apply_changes returns to it
+  bad,       \* sticky error state of the database (maybe_bad_database_state)
+  faults,    \* WAL append failures so far
+  dead,      \* ghost: sequence numbers handed to groups whose WAL append failed (never applied)
+  wseq,      \* ghost: writer -> first sequence number of its batch, 0 = never in a group
+  gok        \* leader -> its group's write succeeded
 
+fvars == <<res, bad, faults, dead, wseq, gok>>
 vars == <<lock, pc, queue, done, seq, hist, grpEnds, memId, memC, imm, ver, turnWait, bgWait,
-          bgSched, chan, grp, rd, nextMem>>
+          bgSched, chan, grp, rd, nextMem, fvars>>
 
 KeyOfSeq(s) == hist[s]
 Newest(S, k, sn) ==
   LET C == {s \in S : hist[s] = k /\ s <= sn} IN
   IF C = {} THEN 0 ELSE CHOOSE x \in C : \A y \in C : y <= x
-Abs(k, sn) == Newest(1..Len(hist), k, sn)
+Abs(k, sn) == Newest((1..Len(hist)) \ dead, k, sn)
 
 RECURSIVE Flatten(_)
 Flatten(ws) == IF ws = <<>> THEN <<>> ELSE BatchOf[Head(ws)] \o Flatten(Tail(ws))
@@ -68,6 +82,8 @@ Init ==
   /\ grp = [w \in Writers |-> <<>>] /\ nextMem = 2
   /\ rd = [r \in Readers |-> [call |-> 0, sq |-> 0, im |-> 0, vr |-> {}, mm |-> 0, res |-> 0,
                               ret |-> 0, snap |-> 0]]
+  /\ res = [w \in Writers |-> "none"] /\ bad = FALSE /\ faults = 0 /\ dead = {}
+  /\ wseq = [w \in Writers |-> 0] /\ gok = [w \in Writers |-> TRUE]
 
 Acquire(p) == lock = "none" /\ lock' = p
 Goto(p, l) == pc' = [pc EXCEPT ![p] = l]
@@ -78,7 +94,7 @@ Goto(p, l) == pc' = [pc EXCEPT ![p] = l]
 WEnq(w) ==
   /\ pc[w] = "start" /\ Acquire(w) /\ queue' = Append(queue, w) /\ Goto(w, "turn")
   /\ UNCHANGED <<done, seq, hist, grpEnds, memId, memC, imm, ver, turnWait, bgWait, bgSched,
-                 chan, grp, rd, nextMem>>
+                 chan, grp, rd, nextMem, fvars>>
 
 WTurn(w) ==
   /\ pc[w] = "turn" /\ lock = w
@@ -86,43 +102,76 @@ WTurn(w) ==
      ELSE IF Head(queue) = w THEN /\ Goto(w, "room") /\ UNCHANGED <<lock, turnWait>>
      ELSE /\ lock' = "none" /\ turnWait' = turnWait \cup {w} /\ Goto(w, "turnwait")
   /\ UNCHANGED <<queue, done, seq, hist, grpEnds, memId, memC, imm, ver, bgWait, bgSched, chan,
-                 grp, rd, nextMem>>
+                 grp, rd, nextMem, fvars>>
 
 WTurnWake(w) ==
   /\ pc[w] = "turnwait" /\ w \notin turnWait /\ Acquire(w) /\ Goto(w, "turn")
   /\ UNCHANGED <<queue, done, seq, hist, grpEnds, memId, memC, imm, ver, turnWait, bgWait,
-                 bgSched, chan, grp, rd, nextMem>>
+                 bgSched, chan, grp, rd, nextMem, fvars>>
 
 \* make_room_for_write
 WRoom(w) ==
   /\ pc[w] = "room" /\ lock = w
-  /\ IF Cardinality(memC[memId]) < MemCap
+  /\ IF bad
+     THEN \* sticky error: the write is refused; the writer leaves the queue (it is the head),
+          \* wakes the next head and returns the error
+          /\ res' = [res EXCEPT ![w] = "err"]
+          /\ IF Bug_FailedRoomStaysQueued
+             THEN UNCHANGED <<queue, turnWait>>
+             ELSE /\ queue' = Tail(queue)
+                  /\ turnWait' = IF Tail(queue) = <<>> THEN turnWait ELSE turnWait \ {Head(Tail(queue))}
+          /\ lock' = "none" /\ Goto(w, "ret")
+          /\ UNCHANGED <<memId, memC, imm, bgWait, bgSched, chan, nextMem, bad, faults, dead, wseq, gok>>
+     ELSE IF Cardinality(memC[memId]) < MemCap
      THEN /\ Goto(w, "group")
-          /\ UNCHANGED <<lock, memId, memC, imm, bgWait, bgSched, chan, nextMem>>
+          /\ UNCHANGED <<lock, queue, turnWait, memId, memC, imm, bgWait, bgSched, chan, nextMem, fvars>>
      ELSE IF imm # 0
      THEN /\ lock' = "none" /\ bgWait' = bgWait \cup {w} /\ Goto(w, "roomwait")
-          /\ UNCHANGED <<memId, memC, imm, bgSched, chan, nextMem>>
+          /\ UNCHANGED <<queue, turnWait, memId, memC, imm, bgSched, chan, nextMem, fvars>>
      ELSE /\ imm' = memId /\ memId' = nextMem /\ nextMem' = nextMem + 1
           /\ IF bgSched THEN UNCHANGED <<bgSched, chan>> ELSE bgSched' = TRUE /\ chan' = chan + 1
-          /\ UNCHANGED <<lock, pc, memC, bgWait>>
-  /\ UNCHANGED <<queue, done, seq, hist, grpEnds, ver, turnWait, grp, rd>>
+          /\ UNCHANGED <<lock, pc, queue, turnWait, memC, bgWait, fvars>>
+  /\ UNCHANGED <<done, seq, hist, grpEnds, ver, grp, rd>>
 
 WRoomWake(w) ==
   /\ pc[w] = "roomwait" /\ w \notin bgWait /\ Acquire(w) /\ Goto(w, "room")
   /\ UNCHANGED <<queue, done, seq, hist, grpEnds, memId, memC, imm, ver, turnWait, bgWait,
-                 bgSched, chan, grp, rd, nextMem>>
+                 bgSched, chan, grp, rd, nextMem, fvars>>
 
-\* build_group_commit_batch: everybody queued right now; sequence numbers assigned; unlock
+\* build_group_commit_batch: a prefix of the queue; sequence numbers assigned; unlock
+RECURSIVE FirstSeqs(_, _, _)
+FirstSeqs(ws, base, f) ==   \* f extended with writer -> first sequence of its batch
+  IF ws = <<>> THEN f
+  ELSE FirstSeqs(Tail(ws), base + Len(BatchOf[Head(ws)]), [f EXCEPT ![Head(ws)] = base + 1])
+
 WGroup(w) ==
   /\ pc[w] = "group" /\ lock = w
-  /\ grp' = [grp EXCEPT ![w] = queue]
-  /\ hist' = hist \o Flatten(queue)
-  /\ grpEnds' = grpEnds \cup {Len(hist) + Len(Flatten(queue))}
-  /\ seq' = IF Bug_PublishEarly THEN Len(hist) + Len(Flatten(queue)) ELSE seq
-  /\ lock' = "none" /\ Goto(w, "ins")
-  /\ UNCHANGED <<queue, done, memId, memC, imm, ver, turnWait, bgWait, bgSched, chan, rd, nextMem>>
+  /\ \E n \in 1..Len(queue) :
+       /\ AnyPrefix \/ n = Len(queue)
+       /\ LET g == SubSeq(queue, 1, n) IN
+          /\ grp' = [grp EXCEPT ![w] = g]
+          /\ hist' = hist \o Flatten(g)
+          /\ grpEnds' = grpEnds \cup {Len(hist) + Len(Flatten(g))}
+          /\ wseq' = FirstSeqs(g, Len(hist), wseq)
+          /\ seq' = IF Bug_PublishEarly THEN Len(hist) + Len(Flatten(g)) ELSE seq
+  /\ gok' = [gok EXCEPT ![w] = TRUE]
+  /\ lock' = "none" /\ Goto(w, "wal")
+  /\ UNCHANGED <<queue, done, memId, memC, imm, ver, turnWait, bgWait, bgSched, chan, rd, nextMem,
+                 res, bad, faults, dead>>
 
-\* unlocked: WAL append, then memtable inserts one entry per step
+\* unlocked: the WAL append of the whole group; it may fail (then nothing reaches the memtable)
+WWal(w) ==
+  /\ pc[w] = "wal"
+  /\ \/ /\ Goto(w, "ins") /\ UNCHANGED <<faults, dead, gok>>
+     \/ /\ faults < MaxFaults
+        /\ faults' = faults + 1
+        /\ gok' = [gok EXCEPT ![w] = FALSE]
+        /\ dead' = dead \cup ((Len(hist) - Len(Flatten(grp[w])) + 1)..Len(hist))
+        /\ Goto(w, "pub")
+  /\ UNCHANGED <<lock, queue, done, seq, hist, grpEnds, memId, memC, imm, ver, turnWait, bgWait,
+                 bgSched, chan, grp, rd, nextMem, res, bad, wseq>>
+
+\* unlocked: memtable inserts one entry per step
 WIns(w) ==
   /\ pc[w] = "ins"
   /\ LET n == Len(Flatten(grp[w]))
@@ -132,20 +181,31 @@ WIns(w) ==
      THEN /\ memC' = [memC EXCEPT ![memId] = @ \cup {base + have + 1}] /\ UNCHANGED pc
      ELSE /\ Goto(w, "pub") /\ UNCHANGED memC
   /\ UNCHANGED <<lock, queue, done, seq, hist, grpEnds, memId, imm, ver, turnWait, bgWait,
-                 bgSched, chan, grp, rd, nextMem>>
+                 bgSched, chan, grp, rd, nextMem, fvars>>
 
-\* re-lock: publish the sequence, pop the group, hand results to followers, wake the next head
+\* re-lock: record a failure as the sticky error, publish the sequence, pop the group, hand the
+\* group's result to the followers, wake the next head, return the own result
 WPub(w) ==
   /\ pc[w] = "pub" /\ lock = "none"
   /\ seq' = Len(hist)
-  /\ LET n == Len(grp[w])  rest == SubSeq(queue, n + 1, Len(queue)) IN
+  /\ bad' = (bad \/ ~gok[w])
+  /\ LET n0 == Len(grp[w])
+         extra == Bug_RejectedFollowerDone /\ Len(queue) > n0
+         n == IF extra THEN n0 + 1 ELSE n0
+         followers == {queue[i] : i \in 2..n}
+         rest == SubSeq(queue, n + 1, Len(queue))
+         r == IF gok[w] THEN "ok" ELSE "err" IN
      /\ queue' = rest
-     /\ done' = [x \in Writers |-> done[x] \/ (\E i \in 2..n : grp[w][i] = x)]
+     /\ done' = [x \in Writers |-> done[x] \/ x \in followers]
+     /\ res' = [x \in Writers |-> IF x = w THEN r
+                                  ELSE IF x \in followers
+                                  THEN (IF Bug_FollowersToldOk THEN "ok" ELSE r)
+                                  ELSE res[x]]
      /\ turnWait' = IF Bug_NoNotify THEN turnWait
-                    ELSE turnWait \ ({grp[w][i] : i \in 2..n}
-                                      \cup (IF rest = <<>> THEN {} ELSE {Head(rest)}))
+                    ELSE turnWait \ (followers \cup (IF rest = <<>> THEN {} ELSE {Head(rest)}))
   /\ lock' = "none" /\ Goto(w, "ret")
-  /\ UNCHANGED <<hist, grpEnds, memId, memC, imm, ver, bgWait, bgSched, chan, grp, rd, nextMem>>
+  /\ UNCHANGED <<hist, grpEnds, memId, memC, imm, ver, bgWait, bgSched, chan, grp, rd, nextMem,
+                 faults, dead, wseq, gok>>
 
 ---------------------------------------------------------------------------
 (* readers: DB::get, optionally through a snapshot taken earlier (DB::get_snapshot) *)
@@ -155,7 +215,7 @@ RCall(r) ==
   /\ rd' = [rd EXCEPT ![r].call = seq]
   /\ Goto(r, IF r \in SnapReaders THEN "snap" ELSE "cap")
   /\ UNCHANGED <<lock, queue, done, seq, hist, grpEnds, memId, memC, imm, ver, turnWait, bgWait,
-                 bgSched, chan, grp, nextMem>>
+                 bgSched, chan, grp, nextMem, fvars>>
 
 \* get_snapshot: the published sequence under the mutex
 RSnap(r) ==
@@ -164,7 +224,7 @@ RSnap(r) ==
   /\ rd' = [rd EXCEPT ![r].snap = IF Bug_SnapshotUnlocked THEN Len(hist) ELSE seq]
   /\ Goto(r, "cap")
   /\ UNCHANGED <<lock, queue, done, seq, hist, grpEnds, memId, memC, imm, ver, turnWait, bgWait,
-                 bgSched, chan, grp, nextMem>>
+                 bgSched, chan, grp, nextMem, fvars>>
 
 \* lock; capture sequence, immutable memtable, version (and the memtable); unlock
 RCap(r) ==
@@ -174,7 +234,7 @@ RCap(r) ==
                       ![r].mm = IF Bug_GetLoadsMemAfterUnlock THEN 0 ELSE memId]
   /\ Goto(r, "mem")
   /\ UNCHANGED <<lock, queue, done, seq, hist, grpEnds, memId, memC, imm, ver, turnWait, bgWait,
-                 bgSched, chan, grp, nextMem>>
+                 bgSched, chan, grp, nextMem, fvars>>
 
 \* unlocked: memtable, immutable memtable, version
 RMem(r) ==
@@ -183,11 +243,11 @@ RMem(r) ==
          a == Newest(memC[m], RKey, rd[r].sq)
          b == IF rd[r].im = 0 THEN 0 ELSE Newest(memC[rd[r].im], RKey, rd[r].sq)
          c == Newest(rd[r].vr, RKey, rd[r].sq)
-         res == IF a # 0 THEN a ELSE IF b # 0 THEN b ELSE c IN
-     rd' = [rd EXCEPT ![r].res = res, ![r].ret = seq]
+         rres == IF a # 0 THEN a ELSE IF b # 0 THEN b ELSE c IN
+     rd' = [rd EXCEPT ![r].res = rres, ![r].ret = seq]
   /\ Goto(r, "ret")
   /\ UNCHANGED <<lock, queue, done, seq, hist, grpEnds, memId, memC, imm, ver, turnWait, bgWait,
-                 bgSched, chan, grp, nextMem>>
+                 bgSched, chan, grp, nextMem, fvars>>
 
 ---------------------------------------------------------------------------
 (* background thread: compaction_task / compact_memtable *)
@@ -195,20 +255,20 @@ RMem(r) ==
 BRecv ==
   /\ pc[BG] = "idle" /\ chan > 0 /\ chan' = chan - 1 /\ Goto(BG, "b1")
   /\ UNCHANGED <<lock, queue, done, seq, hist, grpEnds, memId, memC, imm, ver, turnWait, bgWait,
-                 bgSched, grp, rd, nextMem>>
+                 bgSched, grp, rd, nextMem, fvars>>
 
 BBegin ==
   /\ pc[BG] = "b1" /\ lock = "none"
   /\ IF imm # 0 THEN lock' = "none" /\ Goto(BG, "build") ELSE lock' = BG /\ Goto(BG, "bend")
   /\ UNCHANGED <<queue, done, seq, hist, grpEnds, memId, memC, imm, ver, turnWait, bgWait,
-                 bgSched, chan, grp, rd, nextMem>>
+                 bgSched, chan, grp, rd, nextMem, fvars>>
 
 \* table built without the mutex; then under the mutex: install the version, drop the imm
 BBuild ==
   /\ pc[BG] = "build" /\ Acquire(BG)
   /\ ver' = ver \cup memC[imm] /\ imm' = 0 /\ Goto(BG, "bend")
   /\ UNCHANGED <<queue, done, seq, hist, grpEnds, memId, memC, turnWait, bgWait, bgSched, chan,
-                 grp, rd, nextMem>>
+                 grp, rd, nextMem, fvars>>
 
 BEnd ==
   /\ pc[BG] = "bend" /\ lock = BG
@@ -216,10 +276,11 @@ BEnd ==
   /\ IF imm # 0 THEN bgSched' = TRUE /\ chan' = chan + 1 ELSE bgSched' = FALSE /\ UNCHANGED chan
   /\ lock' = "none" /\ Goto(BG, "idle")
   /\ UNCHANGED <<queue, done, seq, hist, grpEnds, memId, memC, imm, ver, turnWait, grp, rd,
-                 nextMem>>
+                 nextMem, fvars>>
 
 WriterStep(w) ==
-  WEnq(w) \/ WTurn(w) \/ WTurnWake(w) \/ WRoom(w) \/ WRoomWake(w) \/ WGroup(w) \/ WIns(w) \/ WPub(w)
+  WEnq(w) \/ WTurn(w) \/ WTurnWake(w) \/ WRoom(w) \/ WRoomWake(w) \/ WGroup(w) \/ WWal(w)
+  \/ WIns(w) \/ WPub(w)
 ReaderStep(r) == RCall(r) \/ RSnap(r) \/ RCap(r) \/ RMem(r)
 BgStep == BRecv \/ BBegin \/ BBuild \/ BEnd
 
@@ -246,6 +307,19 @@ BatchAtomic ==
   /\ \A r \in SnapReaders : pc[r] \in {"cap", "mem", "ret"} => rd[r].snap \in grpEnds
 
 SeqSane == seq <= Len(hist)
+
+\* C05 (last clause) / C08: a writer that returned got the outcome of its OWN batch: Ok exactly
+\* when the batch was applied - once, completely, and published - and an error exactly when
+\* nothing of it was
+SeqsOf(w) == IF wseq[w] = 0 THEN {} ELSE wseq[w]..(wseq[w] + Len(BatchOf[w]) - 1)
+OwnResult ==
+  \A w \in Writers : pc[w] = "ret" =>
+     /\ res[w] \in {"ok", "err"}
+     /\ res[w] = "ok" => /\ wseq[w] # 0 /\ SeqsOf(w) \cap dead = {}
+                         /\ \A s \in SeqsOf(w) : s <= seq
+     /\ res[w] = "err" => SeqsOf(w) \subseteq dead
+\* an error is sticky: once a group commit failed no later write is accepted
+StickyError == bad => \A w \in Writers : pc[w] \notin {"group", "wal", "ins", "pub"}
 
 \* C09
 AllWritersReturn == <>(\A w \in Writers : pc[w] = "ret")
